@@ -106,3 +106,55 @@ def install(registry):
     registry['sort:boolvec'] = sort_boolvec
     registry['sort:intvec'] = sort_intvec
     registry['construct:serif.vector.Vector'] = construct_vector
+
+
+def sort_methodproxy(I, name):
+    import serif.vector
+    o = VObj(serif.vector.MethodProxy, tag='methodproxy')
+    o.fields['_vector'] = fresh_vector(I, name + '._vector')
+    o.fields['_method_name'] = VStr(z3.String(fresh_name(name + '._method_name')))
+    return o
+
+
+_install0 = install
+
+
+def install(registry):      # noqa: F811
+    _install0(registry)
+    registry['sort:methodproxy'] = sort_methodproxy
+
+
+def _elem_ok(I, v, dt):
+    from contracts import specs
+    f = I.lift(specs.truthful_elem)
+    return B.eval_merged(I, lambda: I.call(f, [v, dt], {})).t
+
+
+def truthful_goal(I, vec):
+    """Truthful(vec) in goal position: one arbitrary source index."""
+    seq = B.as_vseq(I, vec.fields['_underlying'])
+    dt = vec.fields['_dtype']
+    i = fresh_int('tr')
+    rng = z3.And(i >= 0, i < seq.src_len)
+    if seq.pred is not None:
+        rng = z3.And(rng, seq.pred(i))
+    return z3.Implies(rng, _elem_ok(I, seq.elem(i), dt))
+
+
+def sort_tvector(I, name):
+    """A vector satisfying the C03 class invariant (quantified hypothesis over its storage)."""
+    v = fresh_vector(I, name)
+    seq = v.fields['_underlying']
+    j = z3.Int(fresh_name('tq'))
+    body = z3.Implies(z3.And(j >= 0, j < seq.src_len), _elem_ok(I, seq.elem(j), v.fields['_dtype']))
+    pat = to_pyval(seq.elem(j))
+    I.ex.ctx.add(z3.ForAll([j], body, patterns=[pat]))
+    return v
+
+
+_install1 = install
+
+
+def install(registry):      # noqa: F811
+    _install1(registry)
+    registry['sort:tvector'] = sort_tvector
